@@ -738,3 +738,20 @@ Proof.
   unfold adv. destruct (running r) eqn:E; [|reflexivity].
   destruct (rt_tick_fst_running r E) as [b ->]. reflexivity.
 Qed.
+
+(* --- loopback streams at crash: nothing for the host itself is put on the wire --- *)
+Lemma on_wire_spec me ms m :
+  In m (on_wire me ms) <-> In m ms /\ to_self me m = false.
+Proof. unfold on_wire. rewrite filter_In, negb_true_iff. tauto. Qed.
+
+Theorem c04_loopback_silent_lemma t objs order p :
+  owns t objs -> Permutation objs order -> rhost p = self t ->
+  let ms := on_wire (self t) (snd (drop_all t order)) in
+  ~ In (MFin (self t) p) ms /\ ~ In (MRst (self t) p) ms /\
+  streams (fst (drop_all t order)) = [].
+Proof.
+  intros H P Hp. cbv zeta. repeat split.
+  - rewrite on_wire_spec. intros [_ E]. cbn in E. rewrite Hp, N.eqb_refl in E. discriminate.
+  - rewrite on_wire_spec. intros [_ E]. cbn in E. rewrite Hp, N.eqb_refl in E. discriminate.
+  - now destruct (c04_tables_released_lemma t objs order H P) as (_ & _ & Hs & _).
+Qed.
